@@ -115,9 +115,12 @@ def run(ctx):
     r = ctx.tlc('Include', GEN % n, name='GenInclude')
     recs = r.jsons
     items = [(rec, nl, ctx.tmp) for rec in recs for nl in (True, False) if any(it['k'] == 'inc' for it in rec['cart']) or nl]
+    rnd = random.Random(ctx.seed)
     if ctx.quick:
-        rnd = random.Random(ctx.seed)
         items = [x for x in items if len(x[0]['cart']) <= 2 or rnd.randrange(4) == 0]
+    else:
+        # all carts of <= 3 lines; one in five of the 4-line carts (346k carts x 2 took 52 min)
+        items = [x for x in items if len(x[0]['cart']) <= 3 or rnd.randrange(5) == 0]
     res = core.parmap(_case, items, procs=12)
     ctx.evaluations += len(items)
     good = 0
@@ -143,7 +146,8 @@ def run(ctx):
                           {'kind': 'include', 'cart': rec['cart'], 'lua_final_newline': nl})
     ctx.traces += good
     ctx.nontrivial += good
-    ctx.exhaustive = not ctx.quick
+    ctx.exhaustive = False
+    ctx.notes['exhaustive_up_to_lines'] = 2 if ctx.quick else 3
     ctx.canary(classify([b'a', b'b'], [b'ab']) == 'glued-line' and classify([b'a'], [b'a']) is None, 'comparison notices a glued line')
     ctx.sample({'cart': recs[len(recs) // 2]['cart'], 'expect': recs[len(recs) // 2]['expect']})
 
